@@ -9,6 +9,7 @@
 Require Import Base Constants Panic AnchorTypes AnchorSem Gate AccountsTable HandlerFacts Spec AnchorSemLemmas AuthLemmas.
 Require Import Fixed Curve Bank BankOps Risk TransferFee Handlers FixedLemmas BankLemmas LedgerLemmas BankruptcyLemmas.
 Require Import SolvencyWorld HandlerWorld BridgeLemmas.
+Require Import ConfigGen Config Emode ConfigPaths ConfigLemmas KilledLemmas.
 Local Open Scope string_scope.
 Local Open Scope Z_scope.
 
@@ -197,7 +198,17 @@ Proof.
   repeat constructor; vm_compute; discriminate.
 Qed.
 
+(* 'permanently shut': whatever sequence of configuration requests follows (accepted or refused), the bank stays in the
+   killed state, in which validate_bank_state refuses every instruction kind *)
+Theorem C07_killed_bank_permanently_shut :
+  forall g rs b k,
+  op_of b = OP_KILLED ->
+  Gate.opstate_of_Z (op_of (apply_reqs g b rs)) = Some Gate.KilledByBankruptcy /\
+  Gate.validate_bank_state Gate.KilledByBankruptcy k = Err (E E_BankKilledByBankruptcy).
+Proof. exact killed_permanently. Qed.
+
 Print Assumptions C07_only_real_bad_debt.
+Print Assumptions C07_killed_bank_permanently_shut.
 Print Assumptions C07_equity_is_unweighted.
 Print Assumptions C07_only_real_bad_debt_unweighted.
 Print Assumptions C07_unweighted_assets_refuted.
